@@ -28,7 +28,9 @@ pub const CHECKS: &[CheckDef] = &[
     CheckDef { id: "C09", quick_runs: 15000, thorough_runs: 150_000, level: "exploration", title: "mpsc: once, in order, with ordering" },
     CheckDef { id: "C10", quick_runs: 6000, thorough_runs: 300_000, level: "exploration", title: "leaks reported exactly" },
     CheckDef { id: "C11", quick_runs: 2500, thorough_runs: 300_000, level: "exploration", title: "loom::sync::Arc behaves like std::sync::Arc" },
+    CheckDef { id: "C13", quick_runs: 700, thorough_runs: 40_000, level: "fault_enumeration", title: "deterministic and resumable exploration" },
     CheckDef { id: "C14", quick_runs: 5000, thorough_runs: 80_000, level: "exploration", title: "exploration terminates and never repeats" },
+    CheckDef { id: "C15", quick_runs: 1500, thorough_runs: 60_000, level: "exploration", title: "preemption bound is sound and monotone" },
 ];
 
 pub fn check_def(id: &str) -> Option<&'static CheckDef> {
@@ -100,6 +102,41 @@ pub fn generate(check: &str, tier: &str, seed: u64, run: u64) -> Case {
                 }
             }
         }
+        "C13" | "C15" => {
+            config.iter_cap = 4000;
+            // C15 compares result SETS of bounded and unbounded runs: the unbounded set is only a
+            // sound yardstick where it is complete, i.e. outside the domain of finding K6
+            // (try-acquires) and of loom's special yield scheduling
+            let plain = check == "C15";
+            match rng.below(6) {
+                0 | 1 => gen_litmus_any(&mut rng, false),
+                2 => {
+                    let mut pr = sync_profile(&mut rng, "wait");
+                    if plain {
+                        pr.try_ops = false;
+                        pr.yields = false;
+                    }
+                    gen_sync(&mut rng, &pr)
+                }
+                3 => {
+                    let mut pr = sync_profile(&mut rng, "lock");
+                    if plain {
+                        pr.try_ops = false;
+                        pr.yields = false;
+                    }
+                    gen_sync(&mut rng, &pr)
+                }
+                4 if check == "C13" => gen_many_stores(&mut rng),
+                _ => {
+                    let mut pr = sync_profile(&mut rng, "");
+                    if plain {
+                        pr.try_ops = false;
+                        pr.yields = false;
+                    }
+                    gen_sync(&mut rng, &pr)
+                }
+            }
+        }
         "C10" => gen_arc(&mut rng, true),
         "C11" => gen_arc(&mut rng, false),
         "C14" => match rng.below(4) {
@@ -139,6 +176,14 @@ pub fn judge(check: &str, tier: &str, case: &Case, seed: u64, run: u64) -> CaseR
         opts.walk_cap = 4096;
     }
     let leak = FailClass::Leak(String::new());
+    if check == "C13" {
+        let r = crate::meta::run_c13_case(&case.program, &case.config, &mut rng, if thorough { 200 } else { 60 }, thorough);
+        crate::meta::cleanup_scratch();
+        return r;
+    }
+    if check == "C15" {
+        return crate::meta::run_c15_case(&case.program, &case.config);
+    }
     if check == "C06" {
         return crate::fault::run_c06_case(&case.program, &case.config, if thorough { 600 } else { 150 });
     }
